@@ -208,10 +208,14 @@ func (r *runner) mismatch(m Mismatch) bool {
 // replayLine dispatches a stored request line to its stream.
 func (r *runner) replayLine(id, line string) {
 	switch {
-	case strings.HasPrefix(line, "P "), strings.HasPrefix(line, "W "), strings.HasPrefix(line, "E "):
-		edit := false
-		if strings.HasPrefix(line, "E ") {
-			edit, line = true, strings.TrimPrefix(line, "E ")
+	case strings.HasPrefix(line, "P "), strings.HasPrefix(line, "W "), strings.HasPrefix(line, "E "), strings.HasPrefix(line, "S "):
+		edit, shared := false, false
+		for strings.HasPrefix(line, "E ") || strings.HasPrefix(line, "S ") {
+			if strings.HasPrefix(line, "E ") {
+				edit, line = true, strings.TrimPrefix(line, "E ")
+			} else {
+				shared, line = true, strings.TrimPrefix(line, "S ")
+			}
 		}
 		warm := ""
 		if f := strings.SplitN(line, " ", 3); f[0] == "W" && len(f) == 3 {
@@ -224,6 +228,7 @@ func (r *runner) replayLine(id, line string) {
 		}
 		p.WarmArch = warm
 		p.WarmEdit = edit
+		p.Shared = shared
 		r.onePolicy(id, p, true)
 	case strings.HasPrefix(line, "B "):
 		goReply, _ := vd.ReplayBuilder(line)
@@ -261,6 +266,10 @@ func (r *runner) onePolicy(id string, p *vd.Policy, forceOracle bool) bool {
 	if p.WarmArch != "" {
 		shown = "W " + p.WarmArch + " " + req
 		r.tag("history:assembled-for-another-arch-first")
+	}
+	if p.Shared {
+		shown = "S " + shown
+		r.tag("layout:groups-are-windows-of-one-array")
 	}
 	if p.WarmEdit {
 		shown = "E " + shown
@@ -406,6 +415,9 @@ func (r *runner) onePolicy(id string, p *vd.Policy, forceOracle bool) bool {
 		if p.WarmArch != "" {
 			m.Note = "history: the same Policy value was assembled for " + p.WarmArch + " before (result discarded)"
 		}
+		if p.Shared {
+			m.Note += " layout: the groups' name lists, conditional entries and condition lists are adjacent windows of one backing array each (S prefix);"
+		}
 		if p.WarmEdit {
 			m.Note += " history: the same Policy value was assembled and dumped before with the middle group's last name missing and another action, then edited in place"
 		}
@@ -499,6 +511,10 @@ func (r *runner) policyStream(rng *rand.Rand) error {
 		if (*profile == "defects" || *profile == "mix" || *profile == "names" || *profile == "conds") && rng.Intn(6) == 0 {
 			// a policy value that was assembled before and then edited inside one of its groups
 			p.WarmEdit = true
+		}
+		if *profile != "limit" && *profile != "single" && rng.Intn(5) == 0 {
+			// a caller who slices one table into the groups of the policy
+			p.Shared = true
 		}
 		if r.onePolicy(fmt.Sprintf("%s#%d", *profile, i), p, false) {
 			break
